@@ -137,3 +137,31 @@ Proof.
         apply Nat.eqb_eq in Q; subst. rewrite G. auto.
   - simpl in H. constructor; [exact I|]. eapply Forall_impl; [|apply (IH seen H)]. intros [k0 v0|k0]; simpl; auto.
 Qed.
+
+(* ---------------------------------------------------------------- the resolver's Build *)
+Local Open Scope string_scope.
+Lemma link_Build : C15_Gen.calls_Build =
+  ["targets.GetAuthority"; "return"; "strings.FieldsFunc"; "targets.GetEndpoints"; "discov.NewSubscriber"; "return";
+   "sub.Values"; "subset"; "append"; "cc.UpdateState"; "logx.Error"; "sub.AddListener"; "update"; "return"].
+Proof. reflexivity. Qed.
+
+(* the order of Build's three effects, read off the regenerated skeleton, is the model's build_order:
+   the listener is registered BEFORE the initial push (the hypothesis of c15_resolver_no_lost_update) *)
+Definition bstep_of (s : string) : list bstep :=
+  if String.eqb s "discov.NewSubscriber" then [BSubscribe]
+  else if String.eqb s "sub.AddListener" then [BListen]
+  else if String.eqb s "update" then [BPush]
+  else [].
+
+Lemma link_build_order : flat_map bstep_of C15_Gen.calls_Build = build_order.
+Proof. reflexivity. Qed.
+
+(* the closure `update` pushes the subscriber's values through subset to cc.UpdateState *)
+Lemma link_update_body :
+  filter (fun s => String.eqb s "sub.Values" || String.eqb s "subset" || String.eqb s "cc.UpdateState") C15_Gen.calls_Build =
+  ["sub.Values"; "subset"; "cc.UpdateState"].
+Proof. reflexivity. Qed.
+
+Lemma link_subsetSize : C15_Gen.subsetSize = 32%Z.
+Proof. reflexivity. Qed.
+Local Close Scope string_scope.
